@@ -56,8 +56,14 @@ func (bi *BodyInspector) Inspect(ctx context.Context, r *http.Request, profile *
 		return nil
 	}
 
-	contentType := r.Header.Get(constants.HeaderContentType)
-	if !strings.Contains(strings.ToLower(contentType), constants.ContentTypeJSON) {
+	// Generic clients post JSON without saying so (curl -d labels it
+	// application/x-www-form-urlencoded, others send no Content-Type at all), and the backends
+	// accept that: such bodies are looked at too, everything else is skipped. A body that is
+	// not JSON simply yields no model name.
+	contentType := strings.ToLower(r.Header.Get(constants.HeaderContentType))
+	if contentType != "" &&
+		!strings.Contains(contentType, constants.ContentTypeJSON) &&
+		!strings.HasPrefix(contentType, "application/x-www-form-urlencoded") {
 		bi.logger.Debug("Skipping body inspection for non-JSON content", "content_type", contentType)
 		return nil
 	}
